@@ -5,6 +5,14 @@ are listed under not_applicable with the reason 'not yet built'."""
 import json, os
 V = os.path.dirname(os.path.dirname(os.path.abspath(__file__)))
 notes = json.load(open(os.path.join(V, "gen", "manifest_notes.json")))
+# per-property notes written by the builder of each check: gen/manifest_notes.d/Cxx.json = {"text":..., "note":..., "technique":...}
+nd = os.path.join(V, "gen", "manifest_notes.d")
+for n in sorted(os.listdir(nd)) if os.path.isdir(nd) else []:
+    if n.endswith(".json"):
+        try:
+            notes[n[:-5]] = json.load(open(os.path.join(nd, n)))
+        except Exception as e:
+            print("bad notes file", n, e)
 ids = ["C%02d" % i for i in range(1, 21)]
 have = [i for i in ids if os.path.exists(os.path.join(V, "checks", i.lower() + ".py"))]
 m = {
